@@ -179,3 +179,60 @@ def half_max_tolerance(mu: float, x: float, h: float) -> float:
     the property's design.
     """
     return 1e-12 + 3.0 * displacement(mu, x, h) / h
+
+
+# ---------------------------------------------------------------------------------------
+# orderings of an abscissa array: the value of a model at a point must not depend on which
+# other points are in x, nor on where in x the point stands
+
+
+def ordering_classes(n: int) -> dict:
+    """Index arrays into an *ascending* array of n >= 4 points, one per ordering class."""
+    a = np.arange(n)
+    k = max(2, int(round(0.618 * n)))
+    while math.gcd(k, n) != 1:
+        k += 1
+    centre_out = np.argsort(np.abs(a - (n - 1) / 2.0), kind='stable')
+    out = {
+        'descending': a[::-1],
+        'low_ends': np.concatenate([[0], a[2:], [1]]),  # both end points are the two smallest abscissae
+        'high_ends': np.concatenate([[n - 1], a[: n - 2], [n - 2]]),  # both end points are the two largest
+        'rotated': np.roll(a, n // 3),
+        'centre_out': centre_out,  # starts next to the middle, ends at the extremes
+        'ends_in': centre_out[::-1],
+        'interleaved': (a * k) % n,
+        'each_twice': np.repeat(a, 2),
+        'tiled_low_ends': np.concatenate([[0], a[2:], [1], [0], a[2:], [1]]),
+        'all_equal_to_middle': np.full(5, n // 2),
+    }
+    return out
+
+
+def is_permutation_with_repeats(idx, n) -> bool:
+    idx = np.asarray(idx)
+    return idx.ndim == 1 and len(idx) > 0 and idx.min() >= 0 and idx.max() < n
+
+
+# ---------------------------------------------------------------------------------------
+# what a model object must be after any history of uses: its names are prefix + base names
+
+
+class ModelState:
+    """Boring reference of a model object's observable naming state."""
+
+    def __init__(self, base_names, prefix=''):
+        self.base = frozenset(base_names)
+        self.prefix = prefix
+
+    @property
+    def param_names(self):
+        return {self.prefix + b for b in self.base}
+
+    def after(self, op, arg=None):
+        """State of the object an operation hands back (only with_prefix changes anything)."""
+        if op == 'with_prefix':
+            return ModelState(self.base, arg)
+        return ModelState(self.base, self.prefix)
+
+    def rename(self, params_by_base):
+        return {self.prefix + b: v for b, v in params_by_base.items()}
